@@ -1,6 +1,7 @@
 package checks
 
 import (
+	"bytes"
 	"fmt"
 	"strings"
 
@@ -369,4 +370,10 @@ func genOutcome(rt *rapid.T, allowDrop bool) fakecass.Outcome {
 	default:
 		return fakecass.Outcome{Kind: errKinds[rapid.IntRange(0, len(errKinds)-1).Draw(rt, "errkind")]}
 	}
+}
+
+// decodeAttempt decodes a request received by the fake backend with the reference codec.
+func decodeAttempt(a *fakecass.Attempt) (*frame.Body, error) {
+	hdr := &frame.Header{Version: primitive.ProtocolVersion(a.Version & 0x7f), Flags: primitive.HeaderFlag(a.Flags &^ wire.FlagCompressed), OpCode: primitive.OpCode(a.Op), BodyLength: int32(len(a.Plain))}
+	return wire.Ref.DecodeBody(hdr, bytes.NewReader(a.Plain))
 }
